@@ -270,7 +270,7 @@ class Cmp:
         self.pending = {}        # key -> (reason, replay) first example of a modelled defect
         self.counts = {}
 
-    def diff(self, name, mode, cases, a, b, monitor, max_report=3):
+    def diff(self, name, mode, cases, a, b, monitor, max_report=3, refine=None):
         chk = self.chk
         if len(a) != len(cases) or len(b) != len(cases):
             chk.violation("%s: harness/model produced %d/%d lines for %d cases" % (name, len(a), len(b), len(cases)),
@@ -283,10 +283,15 @@ class Cmp:
                 chk.cov["disagreements_checked"] += 1
                 nbad += 1
                 if nbad <= max_report:
-                    r = monitor(c, x) if monitor else None
+                    rmode, rmon = mode, monitor
+                    if refine:                       # a hashed block: find one concrete case inside it
+                        got = refine(c)
+                        if got:
+                            rmode, c, x, y, rmon = got
+                    r = rmon(c, x) if rmon else None
                     reason = r[1] if r else None
                     chk.violation("%s: implementation and model disagree%s" % (name, (": " + reason) if reason else ""),
-                                  {"kind": "correspondence", "obligation": name, "mode": mode, "case": c,
+                                  {"kind": "correspondence", "obligation": name, "mode": rmode, "case": c,
                                    "impl": x, "model": y, "monitor": reason}, found_input=reason is not None)
             elif monitor:
                 r = monitor(c, x)
@@ -615,26 +620,65 @@ def run(chk, lib, thorough):
         return
     cmp = Cmp(chk)
 
-    def both(name, mode, cases, monitor, shards=vf.JOBS):
+    def pair(mode, cases):
+        a, _, _ = vf.run_lines([h, mode], cases, shards=vf.JOBS)
+        b, _, _ = vf.run_lines([model, mode], cases, shards=vf.JOBS)
+        return a, b
+
+    def refine_u8(block):
+        """first sequence of a disagreeing u8blk block on which the two sides differ"""
+        pre, k, alpha = block.split()
+        alpha = list(range(256)) if alpha == "*" else unhex(alpha)
+        seqs = [unhex(pre)]
+        for _ in range(int(k)):
+            seqs = [q + [c] for q in seqs for c in alpha]
+        cases = [hexs(q) for q in seqs]
+        a, b = pair("u8", cases)
+        for c, x, y in zip(cases, a, b):
+            if vf.canon(x) != vf.canon(y):
+                return "u8", c, x, y, mon_u8
+        return None
+
+    def refine_idna(block):
+        """bisect a disagreeing idnablk block down to one scalar value"""
+        lo, hi, cap, pre, suf = block.split()
+        lo, hi = int(lo), int(hi)
+        while hi - lo > 1:
+            mid = (lo + hi) // 2
+            cs = ["%d %d %s %s %s" % (lo, mid, cap, pre, suf)]
+            a, b = pair("idnablk", cs)
+            if a and b and vf.canon(a[0]) != vf.canon(b[0]):
+                hi = mid
+            else:
+                lo = mid
+        case = "%s %s" % (cap, hexs(unhex(pre) + utf8_encode(lo) + unhex(suf)))
+        a, b = pair("idna", [case])
+        if a and b and vf.canon(a[0]) != vf.canon(b[0]):
+            return "idna", case, a[0], b[0], mon_idna
+        return None
+
+    def both(name, mode, cases, monitor, shards=vf.JOBS, refine=None):
         a, rc, err = vf.run_lines([h, mode], cases, shards=shards)
         b, rc2, err2 = vf.run_lines([model, mode], cases, shards=shards)
         if rc != 0:
             chk.violation("%s: the harness on the real library died (exit %s): %s" % (name, rc, (err or "")[-300:]),
                           {"kind": "crash", "obligation": name, "mode": mode}, found_input=False)
-        cmp.diff(name, mode, cases, a, b, monitor)
+        cmp.diff(name, mode, cases, a, b, monitor, refine=refine)
         return a
 
     # (a) UTF-8 decoder
     blocks, lines = u8_cases(chk.rng, thorough)
     a = both("uv__utf8_decode1 = Model/Idna.v utf8_decode1", "u8", lines, mon_u8)
     chk.sample({"utf8_case": lines[0], "impl": a[0] if a else None})
-    both("uv__utf8_decode1 = Model/Idna.v utf8_decode1 (exhaustive blocks)", "u8blk", blocks, mon_u8blk)
+    both("uv__utf8_decode1 = Model/Idna.v utf8_decode1 (exhaustive blocks)", "u8blk", blocks, mon_u8blk,
+         refine=refine_u8)
     chk.cov["utf8_sequences_enumerated"] = sum(
         (256 if c.split()[2] == "*" else len(c.split()[2]) // 2) ** int(c.split()[1]) for c in blocks)
 
     # (b) IDNA
     blocks, lines = idna_cases(chk.rng, thorough)
-    both("uv__idna_toascii = Model/Idna.v idna_toascii (all scalar values, blocks)", "idnablk", blocks, None)
+    both("uv__idna_toascii = Model/Idna.v idna_toascii (all scalar values, blocks)", "idnablk", blocks, None,
+         refine=refine_idna)
     a = both("uv__idna_toascii = Model/Idna.v idna_toascii", "idna", lines, mon_idna)
     chk.cov["idna_scalars_enumerated"] = 0x110000 - 0x800
     chk.cov["idna_e2big_seen"] = sum(1 for x in a if x.startswith("-7 "))
